@@ -31,6 +31,9 @@ def r_kernel_shape(ctx, prog):
             if i.op in ('ptrtoint', 'inttoptr'):
                 bad, why = i, 'converts between addresses and integers (alignment-dependent behaviour)'
             elif i.op == 'call':
+                from .ir import PRINT_CALLS, verbosity_regions_pure
+                if i.callee in PRINT_CALLS and verbosity_regions_pure(f)[0]:
+                    continue      # trace output of the OF_DEBUG build, under the trace level only (R-VERBOSITY)
                 bad, why = i, 'calls %s' % i.callee
             elif i.op in ('mul', 'udiv', 'sdiv', 'urem', 'srem', 'shl', 'lshr', 'ashr') and i.ty and i.ty.startswith('i'):
                 if i.op in ('mul',):
